@@ -300,11 +300,42 @@ def _family(kind, n):
             "odd": _ODD[:n], "odd-reversed": _ODD[:n][::-1]}[kind]
 
 
+def inplace_parent_fails(n, kind):
+    """ONE parent list object is used, edited in place (reversed, two elements exchanged, one replaced), and used again."""
+    seq = list(_family(kind, n))
+    fails = []
+    for step in range(4):
+        for mask in range(1 << n):
+            sub = [seq[i] for i in range(n) if mask >> i & 1]
+            try:
+                if SS.mask_from_subseq(sub, seq) != mask or SS.subseq_from_mask(mask, seq) != sub:
+                    fails.append(f"after {step} in-place edit(s) of the same parent list {seq}: mask {bin(mask)} does not round-trip")
+                    return fails
+            except Exception as e:
+                return [f"after {step} in-place edit(s) of the same parent list: exception {type(e).__name__}: {e}"]
+        if n >= 2:
+            if step == 0:
+                seq.reverse()
+            elif step == 1:
+                seq[0], seq[-1] = seq[-1], seq[0]
+            else:
+                seq[n // 2] = ("new", step)
+    return fails
+
+
 def roundtrip_concrete_item(item):
     """Concrete companion of the symbolic round trip (plain enumeration, reported as such): element kinds the affine encoding cannot
     carry (strings, tuples, None, falsy and mixed-type values) and code paths that hash their arguments."""
     n = item["n"]
     out = dict(obligations=0, discharged=0, violations=[], item=item, paths=1, solver_queries=0, solver_s=0.0, nontrivial=n >= 2)
+    for kind in ("int", "str", "tuple") if n <= 7 else ():
+        out["obligations"] += 1
+        cf = inplace_parent_fails(n, kind)
+        if cf:
+            out["violations"].append({"kind": "roundtrip", "text": f"{cf[0]}", "signature": {"kind": "roundtrip-inplace", "elements": kind, "n": n},
+                                      "data": {"fn": "roundtrip-inplace", "n": n, "family": kind}, "confirmed": True})
+            return out
+        out["discharged"] += 1
     for kind in ("int", "str", "tuple", "odd", "odd-reversed"):
         seq = _family(kind, n)
         for mask in range(1 << n):
@@ -347,6 +378,11 @@ def replay(data):
         return real != exp
     if data["fn"] == "complete":
         return SS.subseq_complete([0] * data["len"]) != (1 << data["len"]) - 1
+    if data["fn"] == "roundtrip-inplace":
+        cf = inplace_parent_fails(data["n"], data["family"])
+        for t in cf:
+            print("  reproduced:", t)
+        return bool(cf)
     if data["fn"] == "roundtrip-concrete":
         cf = _rt_concrete(data["n"], data["mask"], None, _family(data["family"], data["n"]))
     else:
